@@ -2,8 +2,9 @@
 (`c17_part(chk)`, used by the aggregated C17 check).  DESIGN.md §4 C11 / C17.
 
 Proof part: Lean models Wfs/Model.lean, Lfs/Model.lean (x86-TSO, any number of threads, node
-recycling, mutex / single consumer / RCU schemes) with invariants and the theorems of
-Props/C11.lean and Props/C17Stacks.lean.
+recycling, mutex / single consumer / RCU schemes for BOTH stacks: concurrent poppers inside
+read-side sections, recycling only after an abstract GpSpec grace period) with invariants and the
+theorems of Props/C11.lean (C11_full_holds) and Props/C17Stacks.lean.
 Tie: harness/scen/wfs.c and lfs.c compile the REAL src/wfstack.c, src/lfstack.c,
 src/rculfstack.c (+ the real src/urcu.c for the RCU scheme) under the macro shim; every trace is
 replayed by Driver/Wfs.lean / Driver/Lfs.lean on the proven models; an independent C oracle
@@ -22,14 +23,16 @@ THEOREMS = [T11 + x for x in (
     "wfs_refines_lifo", "wfs_each_node_popped_once", "wfs_pop_all_returns_all_in_lifo_order_and_empties",
     "wfs_iteration_exact", "wfs_push_ret_consistent", "wfs_empty_consistent", "wfs_pop_null_iff_empty",
     "wfs_LAST_state_correct", "wfs_no_aba", "wfs_iteration_past_incomplete_push", "wfs_pop_past_incomplete_push",
+    "wfs_rcu_node_not_recycled", "wfs_rcu_recycle_after_gp", "wfs_unprotected_aba_witness",
     "lfs_refines_lifo", "lfs_each_node_popped_once", "lfs_pop_all_returns_all_in_lifo_order_and_empties",
     "lfs_iteration_exact", "lfs_push_ret_consistent", "lfs_empty_consistent", "lfs_pop_null_iff_empty",
     "lfs_pop_returns_top", "lfs_no_aba", "lfs_rcu_node_not_recycled", "lfs_tso_private_init",
-    "lfs_unprotected_aba_witness", "C11_partial")] + [
+    "lfs_unprotected_aba_witness", "C11_full_holds")] + [
     "UrcuVerif.Wfs.inv_step", "UrcuVerif.Wfs.inv_reach", "UrcuVerif.Lfs.inv_step", "UrcuVerif.Lfs.inv_reach",
     "UrcuVerif.Lifo.conservation"]
-UNPROVED = ["UrcuVerif.C11.C11_full (wfstack poppers under RCU: no L2 model of that scheme; composition with the real "
-            "grace period is by interface: the model's GpSpec guard is checked against the real synchronize_rcu() on explored schedules)"]
+# C11_full (both stacks x mutex | single consumer | RCU-protected concurrent poppers) is proved: C11_full_holds.
+# Not a Lean statement: the composition of the abstract GpSpec grace period with the real synchronize_rcu() (trusted base).
+UNPROVED = []
 T17 = "UrcuVerif.C17Stacks."
 THEOREMS17 = [T17 + x for x in (
     "wfs_push_wait_free", "wfs_others_cannot_delay", "wfs_pop_all_one_rmw", "lfs_pop_all_one_rmw",
@@ -51,7 +54,7 @@ TRUSTED = ["Lean 4.33 kernel; axioms ⊆ {propext, Classical.choice, Quot.sound}
            "explored schedules only (cooperative SC scheduler; TSO delays are quantified in the theorems, not in the harness); "
            "harness/rt runtime + macro shim; plain accesses (node->next initialisation, lfstack iteration) are reported by the "
            "scenario / checked through the values later read atomically",
-           "wfstack poppers under RCU (technique 1 of wfstack.h) are not modelled; blocking operations are not claimed wait-free"]
+           "blocking operations are not claimed wait-free"]
 OWN11 = {"lifo", "ret", "once", "recycled", "scheme", "oracle", "DEADLOCK", "BUDGET", "SELFLOCK", "BADUNLOCK"}
 OWN17 = {"solo", "wouldblock", "DEADLOCK", "BUDGET"}
 
@@ -63,6 +66,8 @@ BIN = os.path.join(vlib.LEAN, ".lake", "build", "bin")
 CONFIGS = [
     ("wfs/mutex", "wfs", ["--scheme", "mutex"], "drv_wfs", "cds_wfs, internal mutex"),
     ("wfs/single", "wfs", ["--scheme", "single"], "drv_wfs", "cds_wfs, single consumer"),
+    ("wfs/rcu", "wfs_rcu", [], "drv_wfs", "cds_wfs, concurrent __cds_wfs_pop_* callers in RCU sections without the mutex (real urcu memb), "
+                                         "recycling after synchronize_rcu"),
     ("lfs/mutex", "lfs", ["--scheme", "mutex"], "drv_lfs", "cds_lfs, internal mutex"),
     ("lfs/single", "lfs", ["--scheme", "single"], "drv_lfs", "cds_lfs, single consumer"),
     ("lfs/rcu", "lfs_rcu", [], "drv_lfs", "cds_lfs, poppers in RCU sections (real urcu memb), recycling after synchronize_rcu"),
@@ -72,13 +77,16 @@ CONFIGS = [
 REQUIRED = {
     "wfs": ["push_empty", "push_nonempty", "pop_node", "pop_last", "pop_null", "pop_wouldblock_sync", "pop_cas_retry",
             "sync_relax", "popall_empty", "popall_nonempty", "next_node", "next_end", "next_wouldblock", "empty_true",
-            "empty_false", "lock"],
+            "empty_false", "lock",
+            # wfs/rcu: sections, grace periods, recycling, and pop-vs-pop races (cmpxchg lost to a concurrent popper)
+            "rlock", "retire", "grace_period", "reclaim_after_gp", "pop_cas_fail_by_pop", "pop_cas_fail_by_push",
+            "pop_wouldblock_cas"],
     "lfs": ["push_empty", "push_nonempty", "push_cas_fail", "pop_node", "pop_last", "pop_null", "pop_cas_fail",
             "popall_empty", "popall_nonempty", "next_node", "next_end", "empty_true", "empty_false", "lock",
             "rlock", "grace_period", "reclaim_after_gp"],
 }
 NONTRIVIAL = ("pop_cas_retry", "pop_wouldblock_sync", "pop_wouldblock_cas", "sync_relax", "sync_poll", "next_wouldblock",
-              "push_cas_fail", "pop_cas_fail")
+              "push_cas_fail", "pop_cas_fail", "pop_cas_fail_by_pop", "pop_cas_fail_by_push")
 
 
 def build():
@@ -87,6 +95,10 @@ def build():
     if not ok:
         return False, log
     ok, log = vlib.cc("lfs", [os.path.join(SCEN, "lfs.c"), vrt], ["-w"])
+    if not ok:
+        return False, log
+    ok, log = vlib.cc("wfs_rcu", [os.path.join(SCEN, "wfs.c"), vrt, os.path.join(RT, "vrt_compat_futex.c")] + vlib.rsrc("compat_arch.c"),
+                      ["-w", "-DWITH_RCU", "-DRCU_MEMBARRIER"])
     if not ok:
         return False, log
     rcu_srcs = [os.path.join(SCEN, "lfs.c"), vrt, os.path.join(RT, "vrt_compat_futex.c")] + vlib.rsrc("compat_arch.c")
@@ -160,6 +172,8 @@ def jobs_random(chk, n, c17, seed_base=0):
     for cfg in CONFIGS:
         for k in range(n):
             pushers, poppers, ops, nodes, extra = plan(chk.rng, k, c17)
+            if cfg[0] == "wfs/rcu":
+                poppers = max(2, poppers)       # the point of this configuration: pop-vs-pop races without a mutex
             js.append((cfg, chk.seed * 100000 + seed_base + k, pushers, poppers, ops, nodes, extra))
     return js
 
@@ -228,7 +242,8 @@ def finish_cov(chk, what):
     chk.cov["rule"] = (what + ": schedules of harness/scen/wfs.c and lfs.c (the real src/wfstack.c, lfstack.c, rculfstack.c "
                        "[+ real src/urcu.c memb for the RCU scheme] under the shim; 1-4 pushers, 1-3 poppers, 6-14 ops per thread, "
                        "1-12 recycled nodes, pops / pop_all / iteration / empty / nested lock regions, blocking and non-blocking variants) "
-                       "for 6 configurations (wfs mutex|single, lfs mutex|single|rcu, rculfstack rcu), drawn from VERIF_SEED with "
+                       "for 7 configurations (wfs mutex|single|rcu, lfs mutex|single|rcu, rculfstack rcu; rcu = several concurrent "
+                       "poppers inside read-side sections of the real flavor, no mutex, recycling after synchronize_rcu), drawn from VERIF_SEED with "
                        "random-walk (several switch probabilities), PCT and the systematic one-preemption sweep; every event replayed "
                        "on the proven model by Driver/Wfs.lean / Driver/Lfs.lean, history checked by the independent C oracle; "
                        "non-trivial = the run contains a real interference (incomplete push observed, failed/ retried cmpxchg, "
